@@ -41,12 +41,12 @@ META = {
 
 
 def run(rep):
-    tables(rep)
-    charges(rep)
-    producers(rep)
-    mol_graph(rep)
-    hydrogens(rep)
-    gml_reader(rep)
+    rep.run(tables)
+    rep.run(charges)
+    rep.run(producers)
+    rep.run(mol_graph)
+    rep.run(hydrogens)
+    rep.run(gml_reader)
 
 
 def _dict_literal(fi, name):
